@@ -44,7 +44,9 @@ HOSTILE = ['"abc', "'", '"""', "(", ")", "[", "]", "1...", "...", "…", "--1", 
            # a rule is evaluated as a Python expression: it must not be able to end the process
            "id < exit()", "id < __import__('sys').exit(3)",
            # numbers Python can hold but not print (more than 4300 digits), or not convert (exponent beyond a C int)
-           "0x" + "f" * 4000, "1...0x" + "f" * 4000, "0...1e-9999999999"]
+           "0x" + "f" * 4000, "1...0x" + "f" * 4000, "0...1e-9999999999",
+           # sound ranges made of several parts, one of them open at its lower end: values in the gap get a message
+           "...1, 3...", "...-1, 10...99", "...57, 65..."]
 RULE_TEXT = (
     "fault enumeration: sweep of (base CID or data table, row, column, hostile value) single-cell replacements (see "
     "sweep_note) plus seeded scenarios with two hostile cells at once or one container fault (truncate / bitflip / "
